@@ -106,3 +106,37 @@ func (mc *memberCore) shouldAcceptMessage(
 
 	return !isMessageFromSelf && isSenderValid && isSenderAccepted
 }
+
+// shouldAcceptAccusationMessage decides whether an accusation message
+// published in a phase in which this member verifies data it received
+// privately (shares in phase 4, public key share points in phase 8) should be
+// accepted. Such verification can disqualify a sender locally before the
+// sender's accusations of the same phase are received, on grounds no other
+// member can see yet. The other members still accept and resolve that
+// sender's accusations, so this member has to do the same: the sender is
+// required to be operating at the beginning of the phase, as captured in
+// `operatingAtPhaseStart`, not at the moment the message is received.
+func (mc *memberCore) shouldAcceptAccusationMessage(
+	senderID group.MemberIndex,
+	senderPublicKey []byte,
+	operatingAtPhaseStart []group.MemberIndex,
+) bool {
+	if operatingAtPhaseStart == nil {
+		return mc.shouldAcceptMessage(senderID, senderPublicKey)
+	}
+
+	isMessageFromSelf := senderID == mc.ID
+	isSenderValid := mc.membershipValidator.IsValidMembership(
+		senderID,
+		senderPublicKey,
+	)
+	wasSenderOperating := false
+	for _, memberIndex := range operatingAtPhaseStart {
+		if memberIndex == senderID {
+			wasSenderOperating = true
+			break
+		}
+	}
+
+	return !isMessageFromSelf && isSenderValid && wasSenderOperating
+}
